@@ -15,6 +15,7 @@ driver.open()), without source hooks:
     asyncio is touched (wait_for is the real one)."""
 import asyncio
 import contextlib
+import os
 import re
 
 from scrapli.channel import AsyncChannel, Channel
@@ -88,12 +89,14 @@ def telnet_script(sp):
 def ssh_script(sp):
     """options: fatal_start, phrase_prompt (an encrypted identity is tried first), phrase_tries, empty_skips_key
     (OpenSSH: an empty passphrase gives up on the key at once), reject_first = n (the first n passphrases are
-    refused whatever was typed: a re-prompt), pass_tries"""
+    refused whatever was typed: a re-prompt), pass_tries, key_accepted (public-key login: the server accepts the
+    -- unencrypted, or just decrypted -- identity, no password is asked for; without it the key is REJECTED and the
+    server falls back to its password prompt)"""
     nl = sp["nl"]
     out = sp["banner"]
     if sp.get("fatal_start"):
         yield ("closed", out + sp["fatal_start"] + nl)
-    ok = False
+    ok = bool(sp.get("key_accepted")) and not sp.get("phrase_prompt")
     if sp.get("phrase_prompt"):
         tries = 0
         while True:
@@ -599,7 +602,7 @@ def run_events(stack, kind, events, creds, prompt=None, timeout_ops=30.0):
     return run_channel(stack, kind, t, creds, channel_args(prompt, timeout_ops))
 
 
-def _make_driver(stack, kind, creds, driver, timeout_ops):
+def _make_driver(stack, kind, creds, driver, timeout_ops, private_key=False):
     from scrapli.driver import AsyncDriver, AsyncGenericDriver, Driver, GenericDriver
     sync = stack == "sync"
     cls = {("generic", True): GenericDriver, ("generic", False): AsyncGenericDriver,
@@ -612,17 +615,20 @@ def _make_driver(stack, kind, creds, driver, timeout_ops):
     async def _anoop(conn):
         return None
 
+    # private_key: a public-key login (auth_private_key names an identity file; the file only has to exist -- ssh is
+    # never started, the transport object is replaced by the scripted one -- so this module stands in for it)
+    extra = {"auth_private_key": os.path.abspath(__file__)} if private_key else {}
     # on_open: GenericDriver's default drains the login with a get_prompt (a return); the observation ends with the login
-    return cls(host="sim", transport=tname, auth_username=creds["user"].decode(), auth_password=creds["pass"].decode(),
+    return cls(**extra, host="sim", transport=tname, auth_username=creds["user"].decode(), auth_password=creds["pass"].decode(),
                auth_private_key_passphrase=creds["phrase"].decode(), auth_strict_key=False, timeout_ops=timeout_ops,
                timeout_transport=0, timeout_socket=0, on_open=_noop if sync else _anoop)
 
 
-def run_driver(stack, kind, spec, policy, creds, driver="generic", timeout_ops=30.0, depth=None):
+def run_driver(stack, kind, spec, policy, creds, driver="generic", timeout_ops=30.0, depth=None, private_key=False):
     """the whole driver.open() over the scripted transport (GenericDriver / Driver of the stack); depth: a non-default
     comms_prompt_search_depth, set through the driver's public setter"""
     sync = stack == "sync"
-    d = _make_driver(stack, kind, creds, driver, timeout_ops)
+    d = _make_driver(stack, kind, creds, driver, timeout_ops, private_key=private_key)
     if depth:
         d.comms_prompt_search_depth = depth
     srv = LoginServer(spec)
